@@ -382,7 +382,8 @@ pub fn read_function(x: &Sx) -> Option<Function> {
     Some(f)
 }
 
-/// functions are added in order; their indices in the text must be 0,1,2,… (what `add_function` gives)
+/// functions are added in order with `add_function`, which gives them the indices 0,1,2,… whatever index the text carries
+/// (a function cloned out of another program carries that program's index)
 pub fn read_program(x: &Sx) -> Option<Program> {
     let l = x.list()?;
     if l.first()?.atom()? != "prog" {
